@@ -9,7 +9,7 @@ From J5V.model Require Import J5sValidDecl J5sComments J5sEntity J5sRefSpec J5sA
 From J5V.gen Require ImportsGen.
 From J5V.model Require RulesDecl RulesWrite.
 From Coq Require Import ZArith.
-From J5V.proofs Require Import J5sProofs J5sContractProofs J5sLinkProofs J5sResolveProofs J5sResolveCompleteProofs J5sServiceProofs J5sTotalProofs J5sSymbolProofs J5sCompileProofs J5sSubPkgProofs J5sDepsProofs J5sNameProofs J5sTypeNameProofs J5sWitnessProofs J5sStrictProofs StrcaseProofs J5sStrcaseProofs J5sInfraProofs J5sRefSpecProofs J5sRulesCompose J5sEntityProofs J5sCommentsProofs J5sValidDeclProofs J5sInfraDepsProofs.
+From J5V.proofs Require Import J5sProofs J5sContractProofs J5sLinkProofs J5sResolveProofs J5sResolveCompleteProofs J5sServiceProofs J5sTotalProofs J5sSymbolProofs J5sCompileProofs J5sSubPkgProofs J5sDepsProofs J5sNameProofs J5sTypeNameProofs J5sWitnessProofs J5sFullProofs StrcaseProofs J5sStrcaseProofs J5sInfraProofs J5sRefSpecProofs J5sRulesCompose J5sEntityProofs J5sCommentsProofs J5sValidDeclProofs J5sInfraDepsProofs.
 Import ListNotations.
 Local Open Scope N_scope.
 
@@ -48,23 +48,23 @@ Theorem C02_properties_contract : forall snake camel screaming ps ev path io num
   map dm_name (pr_msgs r) = flat_map (prop_msg_names snake camel) (props_list ps) /\
   map en_name (pr_enums r) = flat_map (prop_enum_names camel) (props_list ps) /\
   (forall msgs enums, incl (pr_msgs r) msgs -> incl (pr_enums r) enums ->
-     props_inline_ok snake camel screaming true ps msgs enums).
+     props_inline_ok snake camel screaming ps msgs enums).
 Proof. intros snake camel screaming. exact (proj1 (proj2 (convert_refines snake camel screaming))). Qed.
 Print Assumptions C02_properties_contract.
 
 (* ---- enums: the declared options numbered in order after <PREFIX>UNSPECIFIED = 0 (the zero
-   value may be spelled out as the first option: UNSPECIFIED or <PREFIX>UNSPECIFIED) - with the
-   clause waived ([true]) for enums whose first option ends in UNSPECIFIED under a name of its own *)
-Theorem C02_enum_contract : forall screaming name e, enum_ok screaming true name e (cv_enum screaming name e).
+   value may be spelled out as the first option: UNSPECIFIED or <PREFIX>UNSPECIFIED), for EVERY
+   enum.  Before fix a65e1f2 any first option ending in UNSPECIFIED was taken as the zero value. *)
+Theorem C02_enum_contract : forall screaming name e, enum_ok screaming name e (cv_enum screaming name e).
 Proof. intros screaming. exact (cv_enum_ok screaming screaming screaming). Qed.
 Print Assumptions C02_enum_contract.
 
-(* ... and exactly for those enums the compiler's output violates the clause of the property text
-   ([false]: nothing waived): the class of the recorded finding is exact *)
-Theorem C02_enum_contract_exact : forall screaming name e,
-  enum_ok screaming false name e (cv_enum screaming name e) <-> named_zero screaming name e = false.
-Proof. intros screaming. exact (cv_enum_strict_iff screaming screaming screaming). Qed.
-Print Assumptions C02_enum_contract_exact.
+(* value 0 of every compiled enum is <PREFIX>UNSPECIFIED, whatever the options are called
+   (README: "The first proto enum value will always be {prefix}_UNSPECIFIED") *)
+Theorem C02_enum_zero_value : forall screaming name e,
+  nth_error (en_vals (cv_enum screaming name e)) 0 = Some (enum_pfx screaming name e ++ b "UNSPECIFIED", 0).
+Proof. intros screaming name e. exact (proj1 (proj2 (cv_enum_ok screaming screaming screaming name e))). Qed.
+Print Assumptions C02_enum_zero_value.
 
 (* ---- well-formed declarations always convert (no error, no panic, no fuel) *)
 Theorem C02_properties_convert : forall snake camel screaming ev ps io,
@@ -82,7 +82,7 @@ Print Assumptions C02_properties_convert.
    same contract, to any depth. *)
 Theorem C02_compile_sound : forall snake camel screaming bd pkg D,
   compile_package snake camel screaming bd pkg = Ok D ->
-  package_contract snake camel screaming true bd pkg D.
+  package_contract snake camel screaming bd pkg D.
 Proof. exact compile_sound. Qed.
 Print Assumptions C02_compile_sound.
 
@@ -94,7 +94,7 @@ Theorem C02_service_contract : forall snake camel screaming ev s ms ss is,
   cv_service snake camel screaming ev s = Ok (ms, ss, is) ->
   exists ds, ss = [ds] /\ ds_name ds = sv_name s ++ b "Service" /\ ds_topic ds = None /\
              Forall2 (method_ok snake (sv_base s)) (sv_methods s) (ds_methods ds) /\
-             exists mss, ms = concat mss /\ Forall2 (method_msgs_ok snake camel screaming true) (sv_methods s) mss.
+             exists mss, ms = concat mss /\ Forall2 (method_msgs_ok snake camel screaming) (sv_methods s) mss.
 Proof. exact cv_service_ok. Qed.
 Print Assumptions C02_service_contract.
 
@@ -105,16 +105,16 @@ Theorem C02_topic_contract : forall snake camel screaming ev t ms ss is,
   cv_topic snake camel screaming ev t = Ok (ms, ss, is) ->
   match t with
   | TPublish name msgs =>
-      exists ds, ss = [ds] /\ topic_service_ok snake camel screaming true name (snake name) RPublish PNil msgs ms ds
+      exists ds, ss = [ds] /\ topic_service_ok snake camel screaming name (snake name) RPublish PNil msgs ms ds
   | TReqRes name req reply =>
       exists ds1 ds2 ms1 ms2, ss = [ds1; ds2] /\ ms = ms1 ++ ms2 /\
-        topic_service_ok snake camel screaming true (name ++ b "Request") (snake name) RRequest virt_request req ms1 ds1 /\
-        topic_service_ok snake camel screaming true (name ++ b "Reply") (snake name) RReply virt_request reply ms2 ds2
+        topic_service_ok snake camel screaming (name ++ b "Request") (snake name) RRequest virt_request req ms1 ds1 /\
+        topic_service_ok snake camel screaming (name ++ b "Reply") (snake name) RReply virt_request reply ms2 ds2
   | TUpsert name entity msg =>
       exists ds, ss = [ds] /\
-        topic_service_ok snake camel screaming true name (snake name) (RUpsert entity) virt_upsert [default_tm_name name msg] ms ds
+        topic_service_ok snake camel screaming name (snake name) (RUpsert entity) virt_upsert [default_tm_name name msg] ms ds
   | TEvent name entity msg =>
-      exists ds, ss = [ds] /\ topic_service_ok snake camel screaming true name (snake name) (REvent entity) PNil [msg] ms ds
+      exists ds, ss = [ds] /\ topic_service_ok snake camel screaming name (snake name) (REvent entity) PNil [msg] ms ds
   end.
 Proof. exact cv_topic_ok. Qed.
 Print Assumptions C02_topic_contract.
@@ -226,29 +226,29 @@ Theorem C02_symbol_table_is_declared : forall snake camel screaming bd pkg fs,
 Proof. exact package_symbols_declared. Qed.
 Print Assumptions C02_symbol_table_is_declared.
 
-(* ... and for the compiled main files of a valid bundle (files in package directories): the
+(* ... and for the compiled main files of a valid bundle: the
    list of (field, type name) pairs of the linked descriptor - every field of every message at
    every depth - is the declared one (J5sTypeNames): a scalar with a message representation
    names its well-known type, a reference .<package>.<Name> of the declaration it resolves to, an
    inline object / oneof / enum .<package>.<Root>.<Path>.<Name> nested under the message of the
    field, a map field its entry message, the entry's value field the item type *)
 Theorem C02_field_type_names : forall bd pkg D,
-  valid bd = true -> (forall x, In x bd -> bfile_pkg x <> []) -> compile bd pkg = Ok D ->
+  valid bd = true -> compile bd pkg = Ok D ->
   forall f im, In (BJ f) bd -> j5s_pkg f = pkg -> import_map (jf_imports f) [] = Ok im ->
   exists df, In df D /\
     main_types_ok to_snake to_camel (mkEnv (j5s_pkg f) im (pkg_exports to_camel bd)) f df.
-Proof. exact (compile_tnames to_snake to_camel to_screaming_snake to_camel_nodot to_snake_nodot). Qed.
+Proof. exact compile_tnames_valid. Qed.
 Print Assumptions C02_field_type_names.
 
 (* the same for the request / response / topic messages: the .service and .topic files *)
 Theorem C02_field_type_names_subpackages : forall bd pkg D,
-  valid bd = true -> (forall x, In x bd -> bfile_pkg x <> []) -> compile bd pkg = Ok D ->
+  valid bd = true -> compile bd pkg = Ok D ->
   forall f im, In (BJ f) bd -> j5s_pkg f = pkg -> import_map (jf_imports f) [] = Ok im ->
   (file_services f <> [] ->
      exists df, In df D /\ service_types_ok to_snake to_camel (mkEnv (j5s_pkg f) im (pkg_exports to_camel bd)) f df) /\
   (file_topics f <> [] ->
      exists df, In df D /\ topic_types_ok to_snake to_camel (mkEnv (j5s_pkg f) im (pkg_exports to_camel bd)) f df).
-Proof. exact (compile_sub_tnames to_snake to_camel to_screaming_snake to_camel_nodot to_snake_nodot). Qed.
+Proof. exact compile_sub_tnames_valid. Qed.
 Print Assumptions C02_field_type_names_subpackages.
 
 (* what the declared list looks like: object Foo { field x object { field q string }
@@ -296,57 +296,41 @@ Print Assumptions C02_valid_packages_compile.
    [valid] (J5sCorr: J5sValid.valid_bundle with the byte-exact strcase functions) = the
    documented restrictions plus: no two declarations of a package generate the same proto
    symbol; every run compares it with acceptance by the real compiler.
-   Not part of package_contract_full: which type a message / enum field names (C02_references_*,
-   C02_inline_type_name, C02_map_entry_type_name are statements on the converter functions) and
-   the dependency lists. *)
+   J5sFullProofs.package_complete = that structural contract (package_contract_full) AND, per
+   source file, the (field, type name) list of the linked main / .service / .topic file - every
+   field at every depth - is the declared one (references resolve to the declared type), AND
+   every reference resolves with its defining file the generated file or one of its dependencies,
+   AND every dependency of a generated file is an infrastructure file or the defining file of a
+   reference written in the declarations that go to it, AND the infrastructure files the
+   declarations need are imported: ONE conclusion for every valid bundle. *)
 Definition C02_full_statement : Prop :=
   forall bd pkg, valid bd = true -> (exists f, In f bd /\ bfile_pkg f = pkg) ->
-    exists D, compile bd pkg = Ok D /\ package_contract_full to_snake to_camel to_screaming_snake false bd pkg D.
+    exists D, compile bd pkg = Ok D /\ package_complete bd pkg D.
 
-(* REFUTED by the faithful model (known finding, replayed on the real compiler in every run):
-   `enum Status { option OLD_UNSPECIFIED  option ACTIVE }` is valid and compiles to
-   STATUS_OLD_UNSPECIFIED = 0, STATUS_ACTIVE = 1 - no STATUS_UNSPECIFIED, the declared options
-   numbered from 0: a FIRST option ending in UNSPECIFIED is taken as the zero value whatever
-   its name (conversion.go visitEnumNode: strings.HasSuffix) *)
-Theorem C02_named_zero_refuted :
+(* PROVED for the model, for every valid bundle (until fix a65e1f2 the statement was refuted by
+   `enum Status { option OLD_UNSPECIFIED  option ACTIVE }`: see C02_fixed_named_zero) *)
+Theorem C02_full : C02_full_statement.
+Proof. exact compile_complete. Qed.
+Print Assumptions C02_full.
+
+(* its first conjunct on its own: the structural contract *)
+Theorem C02_structural_contract :
+  forall bd pkg, valid bd = true -> (exists f, In f bd /\ bfile_pkg f = pkg) ->
+    exists D, compile bd pkg = Ok D /\ package_contract_full to_snake to_camel to_screaming_snake bd pkg D.
+Proof. exact (compile_correct_full to_snake to_camel to_screaming_snake). Qed.
+Print Assumptions C02_structural_contract.
+
+(* regression (fix a65e1f2, conversion.go visitEnumNode / enum.go isExplicitZero): a FIRST option
+   ending in UNSPECIFIED under a name of its own used to be taken as the zero value
+   (STATUS_OLD_UNSPECIFIED = 0, STATUS_ACTIVE = 1 - no STATUS_UNSPECIFIED, options numbered from
+   0); it is an ordinary option now *)
+Theorem C02_fixed_named_zero :
   valid w_named_zero = true /\
   exists D, compile w_named_zero (b "foo.v1") = Ok D /\
-    map en_vals (flat_map fl_enums D) = [[(b "STATUS_OLD_UNSPECIFIED", 0); (b "STATUS_ACTIVE", 1)]] /\
-    ~ package_contract_full to_snake to_camel to_screaming_snake false w_named_zero (b "foo.v1") D.
-Proof. exact named_zero_violates. Qed.
-Print Assumptions C02_named_zero_refuted.
-
-Theorem C02_full_refuted : ~ C02_full_statement.
-Proof.
-  intros H. destruct C02_named_zero_refuted as (Hv & D & Hc & _ & Hn).
-  destruct (H w_named_zero (b "foo.v1") Hv) as (D' & Hc' & Hok).
-  - eexists. split; [left; reflexivity|vm_compute; reflexivity].
-  - rewrite Hc in Hc'. inversion Hc'. subst D'. exact (Hn Hok).
-Qed.
-Print Assumptions C02_full_refuted.
-
-(* PROVED, and the only thing missing is that class of enums: (1) for every valid bundle, the
-   statement with the enum clause waived for enums whose first option names a zero value of
-   its own (everything else about those enums - name, place - and about every other
-   declaration holds) ... *)
-Theorem C02_full_partial :
-  forall bd pkg, valid bd = true -> (exists f, In f bd /\ bfile_pkg f = pkg) ->
-    exists D, compile bd pkg = Ok D /\ package_contract_full to_snake to_camel to_screaming_snake true bd pkg D.
-Proof. exact (compile_correct_full to_snake to_camel to_screaming_snake). Qed.
-Print Assumptions C02_full_partial.
-
-(* ... (2) the full statement for every valid bundle in which no enum - declared, nested or
-   inline, at any depth, in objects, oneofs, requests, responses, topic messages - has such a
-   first option (plain_bundle: a boolean check on the source) *)
-Theorem C02_full :
-  forall bd pkg, valid bd = true -> plain_bundle to_camel to_screaming_snake bd = true ->
-    (exists f, In f bd /\ bfile_pkg f = pkg) ->
-    exists D, compile bd pkg = Ok D /\ package_contract_full to_snake to_camel to_screaming_snake false bd pkg D.
-Proof.
-  intros bd pkg Hv Hp Hex. destruct (C02_full_partial bd pkg Hv Hex) as (D & Hc & Hok).
-  exists D. split; [exact Hc|]. exact (contract_strict_of_plain to_snake to_camel to_screaming_snake bd pkg D Hp Hok).
-Qed.
-Print Assumptions C02_full.
+    map en_vals (flat_map fl_enums D) =
+      [[(b "STATUS_UNSPECIFIED", 0); (b "STATUS_OLD_UNSPECIFIED", 1); (b "STATUS_ACTIVE", 2)]].
+Proof. exact named_zero_numbered_after_zero. Qed.
+Print Assumptions C02_fixed_named_zero.
 
 (* ---- the reference clause of `valid` read declaratively.  `valid` evaluates, for every
    reference, J5sValid.ref_is = "the model's resolver returns a declaration of the wanted
@@ -469,9 +453,8 @@ Print Assumptions C02_infrastructure_reaches_dependencies.
 (* C02_full with the declarative hypothesis *)
 Theorem C02_full_declarative :
   forall bd pkg, valid_decl to_snake to_camel to_screaming_snake bd ->
-    plain_bundle to_camel to_screaming_snake bd = true ->
     (exists f, In f bd /\ bfile_pkg f = pkg) ->
-    exists D, compile bd pkg = Ok D /\ package_contract_full to_snake to_camel to_screaming_snake false bd pkg D.
+    exists D, compile bd pkg = Ok D /\ package_complete bd pkg D.
 Proof.
   intros bd pkg Hv. apply C02_full. apply C02_valid_declarative. exact Hv.
 Qed.
@@ -488,8 +471,7 @@ Print Assumptions C02_full_declarative.
    <Name>Query service (Get / List / Events: key path parameters, page / query fields) and the
    .topic file the <Name>Publish topic.  Covered: keys (primary / shard), data, statuses,
    events; command services, summaries, schemas inside the entity block and query settings are
-   C17's (family ent).  (Enum clause waived for a first status ending in UNSPECIFIED under a
-   name of its own - the recorded finding -: lenient contract.) *)
+   C17's (family ent). *)
 Theorem C02_full_with_entities : forall bd dir base imps els e,
   valid bd = true -> In (BJ (expand_jfile dir base imps els)) bd -> In (XEntity e) els ->
   let f := expand_jfile dir base imps els in
@@ -497,23 +479,23 @@ Theorem C02_full_with_entities : forall bd dir base imps els e,
   exists D, compile bd pkg = Ok D /\
     (exists df, In df D /\ fl_path df = main_proto_path f /\
        forall el, In el (entity_main_elements e) ->
-         element_ok to_snake to_camel to_screaming_snake true el (fl_msgs df) (fl_enums df)) /\
+         element_ok to_snake to_camel to_screaming_snake el (fl_msgs df) (fl_enums df)) /\
     (exists df ms ds, In df D /\ fl_path df = sub_proto_path f (b "service") /\ In ds (fl_svcs df) /\
        match query_service pkg e with
-       | EService s => service_linked_ok to_snake to_camel to_screaming_snake true (pkg ++ dot ++ b "service") s ms ds
+       | EService s => service_linked_ok to_snake to_camel to_screaming_snake (pkg ++ dot ++ b "service") s ms ds
        | _ => False
        end) /\
     (exists df ms ss, In df D /\ fl_path df = sub_proto_path f (b "topic") /\
        match publish_topic pkg e with
-       | ETopic t => topic_linked_ok to_snake to_camel to_screaming_snake true (pkg ++ dot ++ b "topic") t ms ss
+       | ETopic t => topic_linked_ok to_snake to_camel to_screaming_snake (pkg ++ dot ++ b "topic") t ms ss
        | _ => False
        end).
 Proof.
   intros bd dir base imps els e Hv Hin He f pkg.
-  destruct (C02_full_partial bd pkg Hv) as (D & Hc & Hok).
+  destruct (C02_structural_contract bd pkg Hv) as (D & Hc & Hok).
   - exists (BJ f). split; [exact Hin|reflexivity].
   - exists D. split; [exact Hc|].
-    exact (entity_contract to_snake to_camel to_screaming_snake true bd dir base imps els e D Hok Hin He).
+    exact (entity_contract to_snake to_camel to_screaming_snake bd dir base imps els e D Hok Hin He).
 Qed.
 Print Assumptions C02_full_with_entities.
 
@@ -545,7 +527,7 @@ Proof. exact readme_entity_valid. Qed.
    package (J5sCorr.locs_check).  Here: the declaration the real compiler was probed with.
    Not in SourceCodeInfo at all (observed): service and method descriptions. *)
 Theorem C02_source_locations_probe :
-  locs_eqb (main_locs to_camel probe_table probe_file) probe_real = true.
+  locs_eqb (main_locs to_camel to_screaming_snake probe_table probe_file) probe_real = true.
 Proof. exact probe_locations. Qed.
 Print Assumptions C02_source_locations_probe.
 
@@ -659,11 +641,11 @@ Example C02_example :
                   Property (b "bar") false false (FObjInline [] (mkprops [sfield "x"]));
                   Property (b "tags") false false (FMap (FScalar SString));
                   Property (b "st") false true (FEnumInline (mkEnum [] [] [b "A"; b "B"]))]) NNil])] in
-  valid bd = true /\ plain_bundle to_camel to_screaming_snake bd = true /\
+  valid bd = true /\
   exists D, compile bd (b "foo.v1") = Ok D /\
     match D with
     | [f] => map (fun m => map (fun x => (f_name x, f_num x)) (dm_fields m)) (fl_msgs f) =
              [[(b "foo_id", 1); (b "bar", 2); (b "tags", 3); (b "st", 4)]]
     | _ => False
     end.
-Proof. cbv zeta. split; [vm_compute; reflexivity|]. split; [vm_compute; reflexivity|]. eexists. split; vm_compute; reflexivity. Qed.
+Proof. cbv zeta. split; [vm_compute; reflexivity|]. eexists. split; vm_compute; reflexivity. Qed.
